@@ -61,6 +61,17 @@ def check_panel(case, ctx):
     p = pkg.make_panel(case)
     model = case['model']
     name = 'kA[%s,flow=%s]' % (model, case['flow'])
+    if case.get('decoy') is not None:
+        # another panel, equal in all but one attribute, is evaluated first in this process (module-level traces must not reach `p`)
+        dq = pkg.make_panel(pkg.decoy_case(case, case['decoy'])[0])
+        _set_aero(dq, case)
+        with quiet():
+            for fn in (lambda: dq.calc_kA(silent=True), lambda: dq.calc_cA(_coefs(case, case.get('r') if model == 'cpanel' else None)[2], silent=True)):
+                try:
+                    fn()
+                except Exception:    # noqa - the decoy only leaves traces
+                    pass
+        ctx.label('decoy-before:' + pkg.decoy_case(case, case['decoy'])[1])
     pm = case.get('prelude_mach')
     if pm:
         # a sweep on one Panel object: a first evaluation at another flight condition (coefficients from Mach number, density, speed)
@@ -169,7 +180,7 @@ def check_freq(case, ctx):
     name = 'Panel.freq[atype=%d]' % case['atype']
     p.flow, p.beta, p.gamma = case['flow'], case['beta'], case['gamma']
     p.Nxx, p.Nyy, p.Nxy = case['N']
-    ctx.label('atype:%d' % case['atype'], 'model:' + case['model'])
+    ctx.label('atype:%d' % case['atype'], 'model:' + case['model'], 'solver:%s' % ('sparse' if case.get('sparse') else 'dense'))
     with package(name + '.matrices'):
         K0 = dense(p.calc_k0(silent=True))
         KM = dense(p.calc_kM(silent=True))
@@ -190,7 +201,7 @@ def check_freq(case, ctx):
     q.Nxx, q.Nyy, q.Nxy = case['N']
     q.num_eigvalues = min(6, act.size - 3)
     with package(name):
-        q.freq(atype=case['atype'], silent=True, sparse_solver=False)
+        q.freq(atype=case['atype'], silent=True, sparse_solver=bool(case.get('sparse', False)))
     w = np.asarray(q.eigvals)
     ref = scipy.linalg.eigvals(K[np.ix_(act, act)], KM[np.ix_(act, act)])
     ref = np.sqrt(ref.astype(complex))
@@ -313,6 +324,8 @@ def _panel_strategy(draw, tier='quick'):
         case['flags'] = f
     case['extra'] = draw(st.sampled_from([0, 0, 6]))
     case['row0'] = draw(st.integers(0, 6))
+    # a sibling panel (one attribute different; w edge flags favoured - they shape the pressure work) evaluated first in the same process
+    case['decoy'] = draw(st.one_of(st.none(), st.integers(0, 29), st.integers(16, 23)))
     return case
 
 
@@ -333,6 +346,7 @@ def _freq_strategy(draw, tier='quick'):
     case['gamma'] = 0.
     case['atype'] = draw(st.sampled_from([1, 2]))
     case['N'] = [-abs(round(draw(gen.fl(0., 50.)), 3)), 0., 0.]
+    case['sparse'] = draw(st.booleans())
     return case
 
 
